@@ -399,6 +399,19 @@ func (h *hist) forged(target int, kind string, claimed, signer *ident) *pdkg.Gos
 	return h.sign(p, terms, signer, claimed.part.Address)
 }
 
+// forgedFor builds an accept / reject in which [sender] (signing with its own, valid key and naming
+// itself as the packet's sender) answers in the name of another participant [victim].
+func (h *hist) forgedFor(target int, kind string, sender, victim *ident) *pdkg.GossipPacket {
+	terms := h.currentTerms(target)
+	var p *pdkg.GossipPacket
+	if kind == "accept" {
+		p = &pdkg.GossipPacket{Packet: &pdkg.GossipPacket_Accept{Accept: &pdkg.AcceptProposal{Acceptor: proto.Clone(victim.part).(*pdkg.Participant)}}}
+	} else {
+		p = &pdkg.GossipPacket{Packet: &pdkg.GossipPacket_Reject{Reject: &pdkg.RejectProposal{Rejector: proto.Clone(victim.part).(*pdkg.Participant)}}}
+	}
+	return h.sign(p, terms, sender, sender.part.Address)
+}
+
 // chaos delivers one adversarial / misplaced event to a random node.
 func (h *hist) chaos() {
 	if h.cut {
@@ -546,12 +559,28 @@ func (h *hist) attempt() bool {
 	// responses
 	for _, i := range accepters {
 		kind := "accept"
-		if h.rng.Intn(6) == 0 {
+		if h.rng.Intn(5) == 0 {
 			kind = "reject"
 		}
 		_, pk := h.command(i, simpleCmd(kind), "cmd-"+kind, "member", false)
+		delivered := false
 		if pk != nil && h.rng.Intn(3) > 0 {
 			h.deliver(pk, without(h.allNodes(), i), kind, i)
+			delivered = true
+		}
+		// another participant answers in the name of member i AFTER i's own answer was recorded:
+		// the opposite answer (vote flipping) or the same one, signed with the other's valid key
+		if delivered && len(participants) > 1 && h.rng.Intn(2) == 0 && !h.cut {
+			y := h.pick(without(participants, i))
+			flip := map[string]string{"accept": "reject", "reject": "accept"}[kind]
+			if h.rng.Intn(4) == 0 {
+				flip = kind
+			}
+			for _, tgt := range without(h.allNodes(), i) {
+				if h.rng.Intn(2) == 0 {
+					h.packet(tgt, h.forgedFor(tgt, flip, h.w.ids[y], h.w.ids[i]), "forged-"+flip+"-in-name-of-answered-member", h.role(tgt, y))
+				}
+			}
 		}
 	}
 	for _, i := range joiners {
